@@ -14,7 +14,8 @@ import (
 // bytes >= 0x80 and NUL ("all byte strings").
 // The third and fourth are made of UTF-8 lead and continuation bytes (strings that are, contain or split multi-byte
 // characters): a byte string is not text.
-var c12Alphabets = [][]byte{[]byte("acgt"), {0x00, 0x7f, 0x80, 0xff}, {0xa9, 0xc2, 0xc3, 0xe6}, {0x41, 0x80, 0xc2, 0xf0}}
+var c12Alphabets = [][]byte{[]byte("acgt"), {0x00, 0x7f, 0x80, 0xff}, {0xa9, 0xc2, 0xc3, 0xe6}, {0x41, 0x80, 0xc2, 0xf0},
+	[]byte("AGTU"), []byte("TUtu")} // the last two: letters that other functions of the library treat as one (T / U, upper / lower case)
 
 func ordsToString(o []int, alpha []byte) string {
 	b := make([]byte, len(o))
